@@ -261,14 +261,16 @@ def _scan_artefacts(recipe, reps):
 
 def run_chain(recipe, ks):
     """the runs of a continuation chain; obs['ok'] = all rows, obs['runs'] = rows per run"""
-    runs, cont = [], None
+    runs, cont, draws = [], None, []
     for i, k in enumerate(ks):
-        o = S.run_recipe(recipe, reps=k, continuation=cont, want_continuation=(i < len(ks) - 1))
+        o = S.run_recipe(recipe, reps=k, continuation=cont, want_continuation=(i < len(ks) - 1),
+                         draw_offset=len(draws))
+        draws.extend(o.get("draws", []))
         cont = o.get("cont")
         if "ok" not in o:
-            return {"err": o["err"], "msg": o.get("msg", ""), "runs": runs}
+            return {"err": o["err"], "msg": o.get("msg", ""), "runs": runs, "draws": draws}
         runs.append(o["ok"])
-    return {"ok": [row for r in runs for row in r], "runs": runs}
+    return {"ok": [row for r in runs for row in r], "runs": runs, "draws": draws}
 
 
 def run_impl(case):
@@ -295,8 +297,9 @@ def coq_case(case, obs):
             exp = "(Ok " + C.clist(S.rows_coq(r) for r in obs["runs"]) + ")"
         else:
             exp = f"(Err {C.cerr(obs['err'])})"
-        return f"CHist PNames {S.recipe_coq(case['recipe'])} {C.clist(C.cnat(k) for k in case['ks'])} {exp}"
+        return f"CHist PNames {S.recipe_coq(case['recipe'], obs.get('draws', []))} {C.clist(C.cnat(k) for k in case['ks'])} {exp}"
     slim = {"ok": obs["ok"]} if "ok" in obs else {"err": obs["err"]}
+    slim["draws"] = obs.get("draws", [])
     return S.proj_case_coq("PNames", case["recipe"], case["reps"], slim)
 
 
